@@ -114,8 +114,9 @@ RECURSIVE IdxRange(_, _)
 IdxRange(a5, n) == IF n = 0 THEN <<>> ELSE <<Idx4Of(a5)>> \o IdxRange(AddC(a5, <<0, 0, 0, 0, 1>>)[2], n - 1)
 V_GenChildren(e) ==
   LET par == InNode(e, e.inp.par)
-      n == IF Less(e.inp.start, e.inp.end) THEN ToNat(SubB(e.inp.end, e.inp.start)) ELSE 0
-      idxs == IdxRange(e.inp.start, n)
+      listed == "idxs" \in DOMAIN e.inp       \* a stepped interval: the indexes range() yields, in that order
+      n == IF listed THEN Len(e.inp.idxs) ELSE IF Less(e.inp.start, e.inp.end) THEN ToNat(SubB(e.inp.end, e.inp.start)) ELSE 0
+      idxs == IF listed THEN e.inp.idxs ELSE IdxRange(e.inp.start, n)
       outs == [j \in 1..n |-> K32!CKD(e, par, idxs[j])]
   IN IF \E j \in 1..n : outs[j].out = "unjudged" THEN "ok"
      ELSE IF \E j \in 1..n : outs[j].out # "ok"
